@@ -108,6 +108,12 @@ func (nfs *Nfs) NFSPROC3_SETATTR(args nfstypes.SETATTR3args) nfstypes.SETATTR3re
 	if args.New_attributes.Gid.Set_it {
 		util.DPrintf(1, "NFS SetAttr gid not supported %v\n", args)
 	}
+	if args.New_attributes.Size.Set_it &&
+		uint64(args.New_attributes.Size.Size) > inode.MaxFileSize() {
+		// beyond what the block map can address (and what FSINFO announces)
+		errRet(op, &reply.Status, nfstypes.NFS3ERR_FBIG)
+		return reply
+	}
 	if args.New_attributes.Size.Set_it {
 		shrink := ip.Resize(op.Atxn, uint64(args.New_attributes.Size.Size))
 		if shrink {
